@@ -85,6 +85,40 @@ def oracle(ctx, seeds=None):
                     if abs(float(np.sum(vol * st['res0'][k]))) > 1e-11 * sc:
                         res.fail('%s:walls' % model, "eq %d: wall-bounded integral changes by %r (flux %r, scheme %r): wall fluxes %r / %r" %
                                  (k, float(np.sum(vol * st['res0'][k])), flux, cfg['scheme'], float(st['flux'][k][0]), float(st['flux'][k][-1])), dict(cfg=cfg))
+    # ---- declared sources: on a periodic mesh (constant-section nozzle, Euler 1D, shallow water) the integral of equation k changes
+    #      by the integral of the source DECLARED FOR EQUATION k and by nothing else, for every subset of sourced equations
+    for j in range(ctx.n(12, 80)):
+        kindm = ['nozzle', 'euler', 'sw'][j % 3]
+        n = int(rng.integers(3, 9)); g = 1.4
+        neq = 2 if kindm == 'sw' else 3
+        amp = [float(rng.uniform(0.3, 2.0)) * (k_ + 1) for k_ in range(neq)]
+        subset = [bool((j // 3 + 1) >> k_ & 1) for k_ in range(neq)]
+        if not any(subset):
+            subset[0] = True
+        mk = lambda a_: (lambda x, q: a_ * (1.0 + 0.5 * np.sin(7.0 * x)))
+        src = [mk(amp[k_]) if subset[k_] else None for k_ in range(neq)]
+        def run():
+            if kindm == 'nozzle':
+                mod = impl.euler.nozzle(lambda x: 1.0 + 0.0 * x, gamma=g, source=src)
+            elif kindm == 'euler':
+                mod = impl.euler.euler1d(gamma=g, source=src)
+            else:
+                mod = impl.shallowwater.shallowwater1d(g=9.81, source=src)
+            msh = impl.mesh.unimesh(ncell=n, length=2.0)
+            disc = impl.modeldisc.fvm(mod, msh, impl.xnum.extrapol1(), numflux='hlle' if kindm != 'sw' else 'rusanov', bcL={'type': 'per'}, bcR={'type': 'per'})
+            W = [1.0 + 0.3 * rng.random(n), 0.2 * rng.normal(size=n)] + ([1.0 + 0.3 * rng.random(n)] if neq == 3 else [])
+            f = impl.field.fdata(mod, msh, [np.array(x, dtype=float) for x in mod.prim2cons(W)])
+            r_ = [np.array(x, dtype=float).copy() for x in disc.rhs(f)]
+            vol = np.asarray(msh.vol(), dtype=float); xc = np.asarray(msh.centers(), dtype=float)
+            return [float(np.sum(vol * r_[k_])) for k_ in range(neq)], [float(np.sum(vol * amp[k_] * (1.0 + 0.5 * np.sin(7.0 * xc)))) if subset[k_] else 0.0 for k_ in range(neq)]
+        ok, out = impl.guarded(run)
+        res.case(('declared-sources', kindm, tuple(subset)))
+        rp = dict(kind='declared-sources', model=kindm, sourced_equations=subset, amplitudes=amp, n=n)
+        if not ok:
+            res.fail('%s:declared-sources-raised' % kindm, out, rp); continue
+        got, exp = out
+        if not all(abs(a_ - b_) <= 1e-10 * (abs(b_) + max(amp)) for a_, b_ in zip(got, exp)):
+            res.fail('%s:declared-sources' % kindm, "periodic mesh, sources declared on equations %r: d/dt of the integrals %r, integrals of the declared sources %r" % (subset, got, exp), rp)
     # ---- 2D operator
     for i in range(ctx.n(60, 1000)):
         kind = i % 3
